@@ -108,7 +108,6 @@ func cmdRun(args []string) {
 	}
 }
 
-
 // oracle: validate the reference model by running the zex cases on it natively.
 func cmdOracle(args []string) int {
 	mode := "quick"
